@@ -217,6 +217,8 @@ class Column:
             name: str, parent: Optional[Union[Path, Table, SubQuery]] = None
         ) -> Column:
             col = Column(name)
+            # name is normalized already, a second pass would lower-case a quoted identifier
+            col.raw_name = name
             if parent:
                 col.parent = parent
             return col
